@@ -41,16 +41,20 @@ def check(run, model, tier):
     run.rule('HSM-CONTENT.O5-content', 'ENTRY is sent only through slots at or below the content frontier K (slots 0..K hold the 0..K-th ancestors of the target)')
     run.rule('HSM-CONTENT.O6-exit', 'every EXIT call goes to the state of the active chain at depth NX (NX = exits made so far in the step): exits climb from the current state one level at a time')
     run.rule('HSM-CONTENT.O6-lca', 'where the entry-path routine returns r: a state of the active chain at depth m was tested equal to the target\'s ancestor at depth q, NX == m and r == q-1 (parents for source == target)')
+    run.rule('HSM-CONTENT.O9-init', 'INIT is sent to the current target (ghost depth 0), the state whose entry was the last one made')
     run.rule('HSM-CONTENT.O7-noraise', 'no raise statement of dispatch/trans_ is reachable by a chart that follows the handler protocol: a well-formed transition is never aborted half-way')
-    cc = hsmrules.record_content_obligations(run, model, 'dispatch', cursor_at_entry=False, kinds={'O4-content', 'O5-content', 'O6-exit', 'O6-lca', 'O7-noraise'})
+    cc = hsmrules.record_content_obligations(run, model, 'dispatch', cursor_at_entry=False, kinds={'O4-content', 'O5-content', 'O6-exit', 'O6-lca', 'O7-noraise', 'O9-init'})
     run.floor('content store obligations in dispatch+trans_', cc['O4-content'], 5)
     run.floor('content entry obligations in dispatch', cc['O5-content'], 2)
     run.floor('exit obligations in dispatch+trans_', cc['O6-exit'], 4)
     run.floor('common-ancestor obligations where trans_ returns', cc['O6-lca'], 1)
+    run.floor('INIT sites in dispatch', cc['O9-init'], 1)
     run.floor('raise statements in dispatch+trans_ proved unreachable for protocol-following charts', cc['O7-noraise'], 5)
     n = hsmrules.entry_loops(run, model, 'dispatch')
     run.floor('entry loops in dispatch', n, 2)
     hsmrules.lca_match_rule(run, model)
+    run.rule('HSM-TRANS', 'chart.trans(x) stores x in the cursor, answers TRAN, writes nothing else (the processor side of H3)')
+    hsmrules.trans_api_rule(run, model)
     n = hsmrules.signal_sets(run, model, ['dispatch', 'trans_'])
     run.floor('handler-call sites in dispatch+trans_', n, 14)
     # (the shape rule HSM-CURSOR.parent-read was retired: O6-exit decides the same thing - the state exited next is the parent of the one exited before -
